@@ -16,7 +16,12 @@ show  a handful of fitted problems (XYFit linear / exponential / very large and 
       first: an earlier property access (showA), do_fit (fitA) or the display itself (showA1: each of report / preface / dict
       as the first requester, the others as repeated requests);  (c) the displayed object: multi-fits (shared parameters,
       mixed member types, shared uncertainty source, single member) are displayed themselves (report, result dictionary, return
-      value of do_fit) and so is each of their members (report, preface, result dictionary) after operations on the multi-fit.
+      value of do_fit) and so is each of their members (report, preface, result dictionary) after operations on the multi-fit;
+      (d) the naming of the parameters: display names assigned (assign_parameter_names) before anything else (before a parameter is
+      fixed) / right before the first display, LaTeX names only (assign_parameter_latex_names), display names that are the argument
+      names rotated by one - x every problem x {free, last parameter fixed} x the kinds of moments (unfitted, fitted, displaced,
+      read back from a file / a saved state, asymmetric): the report must list every parameter under its display name with the
+      numbers and the '(fixed)' mark of the parameter at that position, preface and result dictionary keep the argument names.
 """
 import contextlib
 import io
@@ -34,7 +39,7 @@ from kmc.core import JobResult
 PROPERTY = "C17"
 RULE = (
     "fmt cases = (uncertainty or asymmetric pair, value, n_significant_digits, plain/LaTeX, fixed flag), complete product of the "
-    "alphabets; show cases = (problem incl. multi-fits, backend, fixed subset, moment sequence incl. who requests the asymmetric uncertainties first and reload -> change -> refit, display order) x displayed object (fit / multi-fit / each member) x display (report, preface, result dictionary, return value of do_fit); non-trivial = the string contains "
+    "alphabets; show cases = (problem incl. multi-fits, backend, fixed subset, naming of the parameters (argument names / assigned display names / LaTeX names / permuted names), moment sequence incl. who requests the asymmetric uncertainties first and reload -> change -> refit, display order) x displayed object (fit / multi-fit / each member) x display (report, preface, result dictionary, return value of do_fit); non-trivial = the string contains "
     "an uncertainty that had to be rounded (fmt) / the fit was performed and at least one parameter line with an uncertainty, "
     "one off-diagonal correlation and the cost were compared (show)"
 )
@@ -47,6 +52,7 @@ ASSUMPTIONS = [
     "a parameter whose fitted value is exactly 0 is not generated (the compact preface takes log10 of it)",
     "a display that lists asymmetric uncertainties although the harness did not ask for them is held to fit.asymmetric_parameter_errors read right afterwards (the public accessor of what the fit holds)",
     "the profile scan behind the asymmetric uncertainties may move the minimizer state slightly (observed up to 2e-3 relative on uncertainties); when the judged call itself runs that scan for the first time (display as first requester, do_fit(asymmetric_parameter_errors=True)) every symmetric number must be faithful to the state held just before the scan or to the state held after it (before: read from the same object, for do_fit from an identically built twin fitted without the scan), the asymmetric ones to the state after it; the state-unchanged check of that one call is reduced to names / did_fit / ndf",
+    "a parameter that was given a display name is listed in the textual report under that name (the documented purpose of assign_parameter_names); the compact preface of saved files and the result dictionary list the argument names (as fit.parameter_names does); which parameter is fixed and which numbers it holds is a matter of its position / argument name, never of its display name",
     "MultiFit has no file representation (to_file raises TypeError by design): multi-fits are displayed through report, get_result_dict and the return value of do_fit, their members through all three displays; members are asked for asymmetric uncertainties only after the multi-fit holds them (a member asked first would scan its own cost function alone, a different quantity)",
 ]
 
@@ -357,6 +363,37 @@ def build_problem(problem, backend, v):
 
 ALL_DISPLAYS = ("report", "preface", "dict")
 
+# the naming dimension: what the parameters are called in displays.  'default' = the argument names; 'names' = every parameter
+# gets a display name (assign_parameter_names) before anything else happens (before a parameter is fixed); 'names-late' = the
+# same names, assigned right before the first display; 'latex' = LaTeX names only (assign_parameter_latex_names: the textual
+# displays keep the argument names); 'permuted' = the display names are the argument names rotated by one (every display name
+# is the argument name of ANOTHER parameter).  Multi-fits: the names are assigned on every member for the parameters it has.
+NAMINGS = ("names", "names-late", "latex", "permuted")
+
+
+def display_map(names, naming):
+    """argument name -> name shown in the report"""
+    names = list(names)
+    if naming in ("names", "names-late"):
+        return dict((n, n + "_shown") for n in names)
+    if naming == "permuted":
+        return dict((n, names[(i + 1) % len(names)]) for i, n in enumerate(names))
+    return dict((n, n) for n in names)
+
+
+def assign_names(fit, naming):
+    """Assign the names of `naming` on the real API -> argument name -> display name expected in the report."""
+    names = [str(n) for n in fit.parameter_names]
+    disp = display_map(names, naming)
+    members = list(fit.fits) if type(fit).__name__ == "MultiFit" else [fit]
+    for f in members:
+        own = [str(n) for n in f.parameter_names]
+        if naming == "latex":
+            f.assign_parameter_latex_names(**dict((n, r"\hat{%s}_{0}" % n) for n in own))
+        elif naming != "default":
+            f.assign_parameter_names(**dict((n, disp[n]) for n in own))
+    return disp
+
 
 def displayed_objects(fit):
     """(label, object, available displays): the fit itself; for a multi-fit the multi-fit (no file representation) and every member."""
@@ -441,9 +478,10 @@ def to_plain(x):
 class Shower(object):
     """Runs one display on the real fit and judges it against held values."""
 
-    def __init__(self, fit, fixed, tmpdir):
+    def __init__(self, fit, fixed, tmpdir, display=None):
         self.fit, self.fixed, self.tmpdir = fit, set(fixed), tmpdir
         self.counter = 0
+        self.display = {} if display is None else display  # argument name -> assigned display name (shared, filled by the harness)
 
     # -- the three displays
     def show(self, what, asym):
@@ -508,11 +546,13 @@ class Shower(object):
             return [("report.format", "parsable report", str(e))]
         if r["warning"] != (not h["did_fit"]):
             bad.append(("report.warning", "warning iff no fit was performed (did_fit=%s)" % h["did_fit"], r["warning"]))
-        if [p[0] for p in r["params"]] != h["names"]:
-            bad.append(("report.parameter_names", h["names"], [p[0] for p in r["params"]]))
+        # the report lists the parameters under the display names they were given (the argument names unless assigned)
+        shown_names = [self.display.get(n, n) for n in h["names"]]
+        if [p[0] for p in r["params"]] != shown_names:
+            bad.append(("report.parameter_names", shown_names, [p[0] for p in r["params"]]))
             return bad
         for i, (name, rest) in enumerate(r["params"]):
-            fixed = name in self.fixed
+            fixed = h["names"][i] in self.fixed
             if h["did_fit"] and not fixed:
                 pb = P.judge_pm(rest, False, h["values"][i], 2, error=h["errors"][i], asym=(h["asym"][i] if asym else None))
             elif fixed:
@@ -531,8 +571,8 @@ class Shower(object):
             if r["cor"] is None:
                 bad.append(("report.correlations", "correlation table", "missing"))
             else:
-                if r["cor"]["cols"] != h["names"] or [t[0] for t in r["cor"]["rows"]] != h["names"]:
-                    bad.append(("report.correlation_names", h["names"], [r["cor"]["cols"], [t[0] for t in r["cor"]["rows"]]]))
+                if r["cor"]["cols"] != shown_names or [t[0] for t in r["cor"]["rows"]] != shown_names:
+                    bad.append(("report.correlation_names", shown_names, [r["cor"]["cols"], [t[0] for t in r["cor"]["rows"]]]))
                 else:
                     for i, (_, toks) in enumerate(r["cor"]["rows"]):
                         if len(toks) != len(h["names"]):
@@ -722,11 +762,17 @@ def apply_op(step, fit, info, fixed, tmpdir, stats=None):
 OPS = ("fit", "fitA", "second", "reload", "loadstate", "displace")
 
 
-def start(problem, backend, v, fix, stats=None):
+def start(problem, backend, v, fix, stats=None, naming="default", display=None):
     fit, info = build_problem(problem, backend, v)
     fixed = []
     with warnings.catch_warnings():
         warnings.simplefilter("ignore")
+        if naming not in ("default", "names-late"):
+            _d = assign_names(fit, naming)
+            if display is not None:
+                display.update(_d)
+            if stats is not None:
+                stats["ops"] += 1
         if fix:
             pname = info["names"][-1]
             fit.fix_parameter(pname, info["truth"][-1])
@@ -736,11 +782,11 @@ def start(problem, backend, v, fix, stats=None):
     return fit, info, fixed
 
 
-def twin_state(problem, backend, v, fix, steps, tmpdir):
+def twin_state(problem, backend, v, fix, steps, tmpdir, naming="default"):
     """What an identically built fit holds after the same operations when the last one, do_fit(asymmetric_parameter_errors=True), is
     replaced by a plain do_fit(): the state at the moment the returned dictionary was filled, before the profile scan."""
     twin_dir = tempfile.mkdtemp(prefix="twin_", dir=tmpdir)
-    fit, info, fixed = start(problem, backend, v, fix)
+    fit, info, fixed = start(problem, backend, v, fix, naming=naming)
     with warnings.catch_warnings():
         warnings.simplefilter("ignore")
         for step in steps[:-1]:
@@ -766,7 +812,7 @@ def _asym_visible(text):
     return n
 
 
-def run_show_case(problem, backend, v, fix, seqname, order, collect=None):
+def run_show_case(problem, backend, v, fix, seqname, order, collect=None, naming="default"):
     """Execute one (problem, backend, fixed, sequence, display order) history on the real API.
     -> (list of (step index, display, observable, expected, actual, mode), stats dict)"""
     tmpdir = tempfile.mkdtemp(prefix="kmc_c17_")
@@ -774,9 +820,10 @@ def run_show_case(problem, backend, v, fix, seqname, order, collect=None):
     out = []
     steps = SEQUENCES[seqname]
     try:
-        fit, info, fixed = start(problem, backend, v, fix, stats)
+        display = {}
+        fit, info, fixed = start(problem, backend, v, fix, stats, naming, display)
         objs = displayed_objects(fit)
-        showers = dict((lab, Shower(o, fixed, tmpdir)) for lab, o, _ in objs)
+        showers = dict((lab, Shower(o, fixed, tmpdir, display)) for lab, o, _ in objs)
         known = dict((lab, None) for lab, _, _ in objs)  # asymmetric uncertainties an object is known to hold
         loaded = False  # the fit carries results read from a file
         for si, step in enumerate(steps):
@@ -790,7 +837,7 @@ def run_show_case(problem, backend, v, fix, seqname, order, collect=None):
                         return out, stats
                 if step == "reload":
                     objs = displayed_objects(fit)
-                    showers = dict((lab, Shower(o, fixed, tmpdir)) for lab, o, _ in objs)
+                    showers = dict((lab, Shower(o, fixed, tmpdir, display)) for lab, o, _ in objs)
                 known = dict((lab, None) for lab, _, _ in objs)
                 if step in ("reload", "loadstate"):
                     loaded = True
@@ -805,7 +852,7 @@ def run_show_case(problem, backend, v, fix, seqname, order, collect=None):
                         known[top] = after["asym"]
                         bad = showers[top].judge_dict(ret, after, known[top])
                         if bad:
-                            pre = twin_state(problem, backend, v, fix, steps[: si + 1], tmpdir)
+                            pre = twin_state(problem, backend, v, fix, steps[: si + 1], tmpdir, naming)
                             keys = {(o, repr(a)) for o, _, a in showers[top].judge_dict(ret, pre, known[top])}
                             bad = [(o, e, a) for o, e, a in bad if (o, repr(a)) in keys]
                     else:
@@ -824,6 +871,11 @@ def run_show_case(problem, backend, v, fix, seqname, order, collect=None):
                 for o, e, a in bad:
                     out.append((si, what, o, e, a, "wrong-value"))
                 continue
+            if naming == "names-late" and not display:
+                with warnings.catch_warnings():
+                    warnings.simplefilter("ignore")
+                    display.update(assign_names(fit, naming))  # right before the first display
+                stats["ops"] += 1
             asym = step != "show"
             first = step == "showA1"  # the first display of this step is the first to ask for the asymmetric uncertainties
             # in asymmetric steps the multi-fit is asked before its members (see ASSUMPTIONS)
@@ -913,18 +965,31 @@ ORDER_SENSITIVE = ("unfitted", "fit", "fit-show-refit", "fit-displace", "fit-asy
 QUICK_SCIPY_MULTI = ("multi-expo", "multi-one")
 
 
-def cases(problem, backend, fix, tier, v=0):
+# the sequences of the naming product: every kind of moment at which names matter (nothing fitted, fitted, fitted again after a
+# change, values set by hand, read back from a file / a saved state, asymmetric uncertainties)
+NAMING_SEQS = {
+    "quick": ("unfitted", "fit", "fit-displace", "fit-reload-show", "fit-loadstate-show", "fit-asym"),
+    "thorough": ("unfitted", "fit", "fit-show-refit", "fit-displace", "fit-asym", "fit-reload-show", "fit-loadstate-show", "fit-asymfirst", "fitA-show", "fit-reload-refit", "fit-loadstate-refit"),
+}
+
+
+def cases(problem, backend, fix, tier, v=0, naming="default"):
     """(sequence, display order) pairs of one job."""
     k = 0
     for seqname in seq_names(tier):
         steps = SEQUENCES[seqname]
+        if naming != "default" and (seqname not in NAMING_SEQS[tier] or (backend == "scipy" and any(t in ASYM_STEPS for t in steps))):
+            continue  # (names do not depend on the minimizer: the slow scipy profile scans are left to the default naming)
         if is_multi(problem) and "reload" in steps:
             continue  # a multi-fit has no file representation
         if backend == "scipy" and tier == "thorough" and is_multi(problem) and int(v) != 0 and any(t in ASYM_STEPS for t in steps):
             continue  # thorough tier: scipy profile scans of multi-fits (5-8 s each) in the first valuation only
         if backend == "scipy" and tier == "quick" and any(t in ASYM_STEPS for t in steps) and seqname not in QUICK_SCIPY_ASYM.get(problem, ()):
             continue
-        if seqname not in ORDER_SENSITIVE and tier == "quick":
+        if naming != "default" and tier == "quick":
+            k += 1
+            orders = ("rpd", "dpr")[(k + int(bool(fix))) % 2 :][:1]  # one display order (alternating)
+        elif seqname not in ORDER_SENSITIVE and tier == "quick":
             k += 1
             orders = ("rpd", "dpr")[(k + int(bool(fix))) % 2 :][:1]
         elif "showA1" in steps and not is_multi(problem):
@@ -935,13 +1000,17 @@ def cases(problem, backend, fix, tier, v=0):
             yield seqname, order
 
 
-def run_show(res, problem, backend, v, fix, tier):
-    for seqname, order in cases(problem, backend, fix, tier, v):
-        bad, stats = run_show_case(problem, backend, v, fix, seqname, order)
+def run_show(res, problem, backend, v, fix, tier, naming="default"):
+    for seqname, order in cases(problem, backend, fix, tier, v, naming):
+        bad, stats = run_show_case(problem, backend, v, fix, seqname, order, naming=naming)
         res.executions += 1
         res.transitions += stats["ops"]
         res.evaluations += stats["numbers"]
-        key = (problem, backend, v, fix, seqname, order)
+        key = (problem, backend, v, fix, seqname, order) + ((naming,) if naming != "default" else ())
+        res.facts["show-naming:%s" % naming] += 1
+        res.facts["show-naming:%s:%s" % (naming, "fixed" if fix else "free")] += 1
+        if naming != "default" and "reload" in SEQUENCES[seqname]:
+            res.facts["show-naming:read-back-from-file"] += 1
         res.state(key)
         if stats["fitted_displays"]:
             res.nontriv(key)
@@ -959,16 +1028,18 @@ def run_show(res, problem, backend, v, fix, tier):
         res.facts["report-lines-with-visibly-asymmetric-uncertainties" + (":multi" if is_multi(problem) else "")] += stats["asym_visible"]
         res.facts["multi-fit-displays"] += stats["multi_displays"]
         res.facts["member-displays"] += stats["member_displays"]
-        res.outcomes[("show", problem, backend, "fixed" if fix else "free", seqname, "MISMATCH" if bad else "ok")] += 1
+        res.outcomes[("show", problem, backend, "fixed" if fix else "free", seqname) + (("naming=" + naming,) if naming != "default" else ()) + ("MISMATCH" if bad else "ok",)] += 1
         hist = dict(kind="show", problem=problem, backend=backend, v=v, fix=bool(fix), sequence=seqname, order=order)
+        if naming != "default":
+            hist["naming"] = naming
         seen = set()
         for si, what, obs, exp, act, mode in bad:
             if (what, obs) in seen:
                 continue
             seen.add((what, obs))
-            sig = "show|%s|%s|%s|%s|%s" % (problem, backend, "fixed" if fix else "free", ";".join(SEQUENCES[seqname][: si + 1]), what)
+            sig = "show|%s|%s|%s|%s|%s" % (problem, backend, ("fixed" if fix else "free") + ("" if naming == "default" else ",naming=" + naming), ";".join(SEQUENCES[seqname][: si + 1]), what)
             res.violation(sig, hist, obs, exp, act, mode, extra=dict(step=si, display=what))
-    res.sample(dict(kind="show", problem=problem, backend=backend, valuation=v, fixed_last_parameter=bool(fix), cases=["%s/%s" % c for c in cases(problem, backend, fix, tier, v)]))
+    res.sample(dict(kind="show", problem=problem, backend=backend, valuation=v, fixed_last_parameter=bool(fix), naming=naming, cases=["%s/%s" % c for c in cases(problem, backend, fix, tier, v, naming)]))
 
 
 # ----------------------------------------------------------------------------------------------------------------------
@@ -985,6 +1056,14 @@ def jobs(tier, seed):
                     continue  # scipy needs 2-5 s per multi-fit job: two of the four multi-fit problems in the quick tier
                 for fix in (False, True):
                     specs.append(("show", problem, backend, vv, fix, tier))
+        # the naming product: problems x {free, last parameter fixed} x namings x the sequences NAMING_SEQS
+        for problem in PROBLEMS + MULTI_PROBLEMS:
+            for backend in ("iminuit", "scipy"):
+                if backend == "scipy" and tier == "quick" and problem not in ("xy-lin", "multi-one"):
+                    continue  # (names are independent of the minimizer: the second backend on one single fit and one multi-fit)
+                for fix in (False, True):
+                    for naming in NAMINGS:
+                        specs.append(("show", problem, backend, vv, fix, tier, naming))
     fv = v if tier == "quick" else 3  # the formatter grid is the same in every valuation up to two extra mantissas (thorough: all of them)
     for n in NSIG:
         for k in EXP_ORDER:
@@ -993,7 +1072,7 @@ def jobs(tier, seed):
     for n in NSIG:
         for k in BIG_EXPS:
             specs.append(("symbig", k, n, fv, tier))
-    k0 = [i for i, s in enumerate(specs) if s[0] == "show" and s[2] == "iminuit" and s[1] == "xy-lin"][0]
+    k0 = [i for i, s in enumerate(specs) if s[0] == "show" and s[2] == "iminuit" and s[1] == "xy-lin" and len(s) == 6][0]
     specs.insert(0, specs.pop(k0))
     return specs
 
@@ -1007,7 +1086,9 @@ def bound(tier, seed):
         "asymmetric pairs (equal, same decade, up to %d decades apart, both orientations) x %d values x n x {plain, LaTeX}; fixed flag x all values; "
         "displays: (%d single fits + %d multi-fits, each multi-fit and each of its members a displayed object) x 2 backends x {free, last parameter fixed} x %d moment sequences "
         "(return value of every do_fit judged; asymmetric uncertainties first requested by an earlier access / do_fit / the display itself; results loaded -> change -> refit; "
-        "multi-fits: the %d sequences without from_file) x 2 display orders (3 where the display is the first requester), valuation(s) %s%s"
+        "multi-fits: the %d sequences without from_file) x 2 display orders (3 where the display is the first requester), valuation(s) %s%s; "
+        "naming product: the same fits and multi-fits x {free, last parameter fixed} x parameter namings {display names assigned before anything else, display names assigned right before the first "
+        "display, LaTeX names only, display names = the argument names rotated by one} x %d moment sequences (unfitted, fitted, displaced, read back from a file, from a saved state, asymmetric, ...)%s"
         % (
             len(mantissas((seed % 3) if tier == "quick" else 3)),
             1 if tier == "quick" else 2,
@@ -1018,6 +1099,8 @@ def bound(tier, seed):
             len([q for q in seq_names(tier) if "reload" not in SEQUENCES[q]]),
             (seed % 3) if tier == "quick" else "0,1,2",
             "; sequences whose new element is the return value of do_fit in one display order; scipy: multi-fits " + "/".join(QUICK_SCIPY_MULTI) + " only, asymmetric uncertainties only for " + ", ".join("%s: %s" % (k, "/".join(t)) for k, t in sorted(QUICK_SCIPY_ASYM.items())) if tier == "quick" else "",
+            len(NAMING_SEQS[tier]),
+            " in one display order; scipy on xy-lin and multi-one only" if tier == "quick" else " x display orders x 2 backends",
         )
     )
 
@@ -1035,8 +1118,8 @@ def run_job(spec):
         _, k, n, v, tier = spec
         run_fmt_sym(res, k, n, v, near_only=True)
     elif kind == "show":
-        _, problem, backend, v, fix, tier = spec
-        run_show(res, problem, backend, v, fix, tier)
+        _, problem, backend, v, fix, tier = spec[:6]
+        run_show(res, problem, backend, v, fix, tier, *spec[6:])
     else:
         raise ValueError(spec)
     return res.as_dict()
@@ -1049,7 +1132,7 @@ def replay(history):
         text = fmt_case(float(h["value"]), int(h["n"]), bool(h["latex"]), error=float(h["error"]), asym=asym, fixed=bool(h["fixed"]))
         bad = judge_fmt(text, float(h["value"]), int(h["n"]), bool(h["latex"]), error=float(h["error"]), asym=asym, fixed=bool(h["fixed"]))
         return [dict(observable=o, expected=e, actual=a, mode=m) for o, e, a, m in bad]
-    bad, _ = run_show_case(h["problem"], h["backend"], h["v"], h["fix"], h["sequence"], h["order"])
+    bad, _ = run_show_case(h["problem"], h["backend"], h["v"], h["fix"], h["sequence"], h["order"], naming=h.get("naming", "default"))
     return [dict(observable=o, expected=e, actual=a, mode=m, step=si, display=what) for si, what, o, e, a, m in bad]
 
 
@@ -1061,6 +1144,9 @@ def vacuity_guards(tot, tier):
         tot.facts.get("asymmetric-first-request-by:" + k, 0) > 0 for k in ("report", "preface", "dict", "M.report", "M.dict")
     )
     yield "reports of fits and of multi-fits with visibly different upper and lower uncertainties were judged", tot.facts.get("report-lines-with-visibly-asymmetric-uncertainties", 0) > 0 and tot.facts.get("report-lines-with-visibly-asymmetric-uncertainties:multi", 0) > 0
+    yield "every naming (display names before anything else / right before the first display, LaTeX names, permuted names) displayed with and without a fixed parameter, and read back from a file", all(
+        tot.facts.get("show-naming:%s:%s" % (n, f), 0) > 0 for n in NAMINGS for f in ("fixed", "free")
+    ) and tot.facts.get("show-naming:read-back-from-file", 0) > 0
     yield "both backends and both fixed settings displayed", all(tot.facts.get(k, 0) > 0 for k in ("show-backend:iminuit", "show-backend:scipy", "show-fixed:True", "show-fixed:False"))
     yield "more than 300 displays of fitted states parsed back", tot.facts.get("fitted-displays", 0) > 300
     yield "uncertainties whose rounding carries into the next decade were formatted", tot.facts.get("carry-uncertainties", 0) > 50
